@@ -535,6 +535,10 @@ def getattr_value(eng, v, attr):
         return Builtin(lambda e, *a, **k: m(e, v, *a, **k), '%s.%s' % (kind, attr))
     py = _PY_ATTRS.get(kind)
     if py is not None and attr not in py and not eng.spec:
+        if getattr(eng, 'assumed_kinds', False):
+            # in a region the kinds of the live-in variables are what the contract assumes of the code before the region:
+            # code that uses one as another kind of container is not covered by the contract
+            raise EngineError('attribute %s of a %s: the region contract assumes another kind of value here' % (attr, kind))
         # no Python value this kind stands for has such an attribute
         raise PyExc('AttributeError', (attr,), eng.line)
     raise EngineError('attribute %s of %s value' % (attr, kind))
